@@ -121,9 +121,11 @@ def run_userspace(case):
                 back[start] = cmd.value
             return bytes(back)
 
+        # an Aerotech-style terminal declares its variables by position
         group = dict(case["group"], terminals=[
-            dict(t, aerotech=bool(a) and all(
-                v["via"] == "packet" for v in t["in"] + t["out"]))
+            dict(t, aerotech=True,
+                 **{d: [dict(v, via="packet") for v in t[d]]
+                    for d in ("in", "out")}) if a else t
             for t, a in zip(case["group"]["terminals"],
                             list(case.get("aerotech", [])) + [False] * 4)])
         rig = cyclic.Rig(loop, group, "fast", fault=fault,
